@@ -28,6 +28,7 @@ import __future__ as _future
 import collections
 import contextlib
 import dataclasses
+import copy
 import datetime
 import decimal
 import enum
@@ -406,6 +407,15 @@ class Materialised:
             lines.append("    __hash__ = None")
         else:
             raise ValueError(fl)
+        if spec.get("methods") and name == spec["name"] and not fl.startswith("typeddict"):
+            # behaviour next to the data: instances can be called (which makes the class a virtual subclass of
+            # collections.abc.Callable), a method, a property, a class method; `falsy`: instances are false
+            lines += ["    def __call__(self, *a, **kw):", "        return (a, kw)",
+                      "    def describe_(self, n: int = 0) -> str:", "        return type(self).__name__ * n",
+                      "    @property", "    def summary_(self) -> int:", "        return 17",
+                      "    @classmethod", "    def make_(cls, *a, **kw):", "        return cls(*a, **kw)"]
+            if spec["methods"] == "falsy":
+                lines += ["    def __bool__(self):", "        return False"]
         if spec.get("nest") and name == spec["name"]:
             lines = [f"class {name}_Ns:"] + ["    " + ln for ln in lines]
         self._exec(mod, "\n".join(lines) + "\n", future=future)
@@ -604,6 +614,14 @@ def _safe_dt(d, t, tz):
     return dt
 
 
+_EDGE_DTS = [datetime.datetime.min.replace(tzinfo=datetime.timezone(datetime.timedelta(hours=1))),
+             datetime.datetime(1, 1, 1, 5, 0, tzinfo=datetime.timezone(datetime.timedelta(hours=5, minutes=30))),
+             datetime.datetime.max.replace(tzinfo=datetime.timezone(datetime.timedelta(hours=-1))),
+             datetime.datetime(9999, 12, 31, 20, 59, 59, tzinfo=datetime.timezone(datetime.timedelta(hours=-8))),
+             datetime.datetime.min.replace(tzinfo=datetime.timezone(datetime.timedelta(minutes=1))),
+             datetime.datetime.max.replace(tzinfo=datetime.timezone(datetime.timedelta(minutes=-1439)))]
+
+
 def scalar_values(t: str, *, json64: bool = False):
     if t == "int":
         if json64:
@@ -648,6 +666,9 @@ def scalar_values(t: str, *, json64: bool = False):
             st.builds(_safe_dt, st.dates(), st.times(), _tz()),
             st.builds(_safe_dt, st.sampled_from([datetime.date(1970, 1, 1), datetime.date(2, 1, 1), datetime.date(9998, 12, 31), datetime.date(999, 1, 1)]),
                       st.sampled_from([datetime.time(0, 0), datetime.time(23, 59, 59, 999999), datetime.time(12, 0, 0, 1)]), _tz()),
+            # wall clocks at the ends of the calendar whose UTC instant is outside it (datetime.min east of Greenwich,
+            # datetime.max west of it): valid aware datetimes, but nothing which goes through UTC can handle them
+            st.sampled_from(_EDGE_DTS),
         )
     if t == "time":
         return st.one_of(st.times(timezones=_tz()), st.builds(lambda tm, tz, f: tm.replace(tzinfo=tz, fold=f),
@@ -1189,7 +1210,14 @@ def specs(draw, names: Names | None = None, *, max_depth=3, hashable=False, key=
         return {"k": k, "a": [draw(sub(hashable=True))], "sp": draw(st.sampled_from(SPELLINGS[k]))}
     if k == "tuple":
         n = draw(st.integers(1, 4))
-        g = {"k": "tuple", "a": [draw(sub(hashable=hashable)) for _ in range(n)], "sp": draw(st.sampled_from(SPELLINGS["tuple"]))}
+        if draw(st.integers(0, 3)) == 0:
+            # few member types, repeated: (A, A, B), (A, B, A), (A, A, B, B, A), (A, A, A) - positions which share a
+            # routine next to positions which don't
+            pool = [draw(sub(hashable=hashable)) for _ in range(draw(st.integers(1, 2)))]
+            a = [copy.deepcopy(pool[i % len(pool)]) for i in draw(st.lists(st.integers(0, 1), min_size=3, max_size=5))]
+        else:
+            a = [draw(sub(hashable=hashable)) for _ in range(n)]
+        g = {"k": "tuple", "a": a, "sp": draw(st.sampled_from(SPELLINGS["tuple"]))}
         if names.adversarial and not has_kind(g, "ref") and not hashable:
             names.generics.append(g)
         return g
@@ -1286,6 +1314,8 @@ def class_specs(draw, names, *, max_depth, hashable, open_classes, kw):
         spec["classvars"] = ["cv"]
     if fl.startswith("typeddict") and draw(st.integers(0, 3)) == 0:
         spec["te"] = True
+    if not fl.startswith("typeddict") and draw(st.integers(0, 4)) == 0:
+        spec["methods"] = draw(st.sampled_from([True, True, "falsy"]))
     if draw(st.integers(0, 5)) == 0:
         spec["nest"] = True     # declared in the body of another class: referred to as `<name>_Ns.<name>`, qualified name with a dot
     if fl != "namedtuple" and fields and draw(st.integers(0, 3)) == 0:
